@@ -1198,6 +1198,24 @@ fn c07(ix: &Ix, f: &mut Findings) {
             }
         }
     }
+    // stop() is final: once it has been accepted the actor finishes what was accepted before and goes to on_stop -
+    // it does not go on serving messages that were sent afterwards (which would postpone on_stop for as long as traffic lasts)
+    for a in 0..ix.actors.len() {
+        let x = &ix.actors[a];
+        for sop in &x.stops {
+            let s = &ix.ops[sop];
+            let Some((se, Res::Ok(_), _)) = &s.end else { continue };
+            for op in &x.msgs {
+                let q = &ix.ops[op];
+                if q.s > *se {
+                    f.o("C07.stop_final");
+                    if let Some(h) = ix.henter.get(&q.uid) {
+                        f.v("C07.stop_final", Some(a), format!("actor {a}: stop() had returned Ok at log position {se}; uid {} was sent after that (position {}) and was still handled (position {}) instead of the actor going to on_stop", q.uid, q.s, h[0]));
+                    }
+                }
+            }
+        }
+    }
     // probes: an actor held by a strong handle with no cause answers
     for o in ix.ops.values() {
         if o.kind != OpKind::Probe {
